@@ -202,6 +202,7 @@ fn process_inner(case: &Value) -> Vec<Value> {
         "spec_match": spec_match, "len": src.len(),
         "cfg": case.get("cfg").cloned().unwrap_or(json!({})), "range": range_json,
         "valid_expected": case.get("valid").cloned().unwrap_or(Value::Null),
+        "has_directives": src.contains("stylua: ignore"),
     });
     if small || want("src") {
         render_ev["src"] = json!(src);
@@ -247,21 +248,29 @@ fn process_inner(case: &Value) -> Vec<Value> {
     let cfg_json = case.get("cfg").cloned().unwrap_or(json!({}));
     let variants = expand_sweep(&src, &cfg_json, case.get("sweep").unwrap_or(&Value::Null), range);
     // group by outcome text
-    let mut groups: Vec<(Value, Config, Outcome, f64, Vec<Value>)> = Vec::new();
+    let mut groups: Vec<(Value, Config, Outcome, f64, Vec<Value>, String)> = Vec::new();
     for (vj, vcfg, label) in variants {
         let (o, ms) = run_format(&src, vcfg, range, false);
-        let key = outcome_key(&o);
-        if let Some(g) = groups.iter_mut().find(|g| outcome_key(&g.2) == key) {
+        // outputs are merged across column widths only: every other option value is judged on its own
+        let opt_key = {
+            let mut l = label.clone();
+            if let Some(m) = l.as_object_mut() {
+                m.remove("column_width");
+            }
+            l.to_string()
+        };
+        let key = format!("{}|{}", opt_key, outcome_key(&o));
+        if let Some(g) = groups.iter_mut().find(|g| g.5 == key) {
             g.4.push(label);
             if ms > g.3 {
                 g.3 = ms;
             }
         } else {
-            groups.push((vj, vcfg, o, ms, vec![label]));
+            groups.push((vj, vcfg, o, ms, vec![label], key));
         }
     }
     let in_ok = in_ast.is_ok();
-    for (vi, (vj, vcfg, o, ms, labels)) in groups.into_iter().enumerate() {
+    for (vi, (vj, vcfg, o, ms, labels, _key)) in groups.into_iter().enumerate() {
         observe_variant(case, &id, vi, &vj, vcfg, range, &src, small, in_ok, in_tree.as_ref(), o, ms, labels, &mut evs);
     }
     evs
@@ -403,6 +412,9 @@ fn observe_variant(
     if want("lines") {
         fev["lines"] = obs::line_classes(&out, &exempt);
     }
+    if want("sort") {
+        fev["sort"] = stmts::sort_facts(src, &out, &cfg, range);
+    }
     if want("strings") {
         fev["strings_in"] = json!(obs::string_table(src));
         fev["strings_out"] = json!(obs::string_table(&out));
@@ -447,7 +459,7 @@ fn observe_variant(
         if want("calls") {
             rev["calls_out"] = crate::calls::call_table(ot);
             rev["calls_in"] = crate::calls::call_table(it);
-            rev["headers_out"] = crate::calls::header_table(&out);
+            rev["headers_out"] = crate::calls::header_table(&out, &stmts::exempt_spans_out(&out, &cfg, range));
         }
     }
     evs.push(rev);
